@@ -40,6 +40,8 @@ def violation_site(v, differs_only_after):
     else:
         before = v['states'][:v['pos']]
         st = '+'.join(sorted(set(before))) if before else 'later:' + '+'.join(sorted(set(v['states'])))
+        if set(before) == {'none'}:      # the predecessor bears no named state: name the state the subject depends on
+            st = 'into-' + v.get('sstate', '?')
     return '%s-leak:%s' % (v['lvl'], st)
 
 
@@ -124,9 +126,36 @@ def run(ck, tier):
                          'only in the composed workflow: %s; only in the reduced workflow: %s'
                          % (v['lvl'], v['subj'], v['preds'], v['place'] or 'position %d' % v['pos'], only_c, only_r),
                          {'kind': 'compose', 'lvl': v['lvl'], 'hdr': v['hdr'], 'subj': v['subj'], 'preds': v['preds'],
-                          'states': v['states'], 'pos': v['pos'], 'place': v['place'], 'tools': v['tools'],
+                          'states': v['states'], 'sstate': v.get('sstate', ''), 'pos': v['pos'], 'place': v['place'], 'tools': v['tools'],
                           'pred': v['preds'][0], 'only_composed': only_c, 'only_reduced': only_r,
                           'src_composed': o['src_composed'], 'src_reduced': o['src_reduced']})
+    if outs and outs[0].get('global_changed'):
+        ck.note('a process-global type table differs after the batch of compositions (attributed below if a single entry does it)')
+        batch_changed = True
+    else:
+        batch_changed = False
+    # G1b: process-global type tables.  Composed and reduced workflows are linted in one process, so an entry that
+    # edits BuiltinGlobalVariableTypes / BuiltinFuncSignatures would change both alike: every catalogue entry is
+    # linted alone in a fresh process and the tables are dumped before and after (two real observations).
+    items = sorted({(v['lvl'], n) for v in uniq for n in [v['subj']] + v['preds']})
+    iin = [{'lvl': l, 'name': n, 'hdr': h} for (l, n) in items for h in (('push', 'pydefault', 'call') if l == 'job' else ('push',))]
+    vplib.write_jsonl(os.path.join(sd, 'iin.jsonl'), iin)
+    vplib.run_harness(['compose-items', os.path.join(sd, 'iin.jsonl'), os.path.join(sd, 'iout.jsonl')], timeout=1800)
+    blamed = 0
+    for o in vplib.read_jsonl(os.path.join(sd, 'iout.jsonl')):
+        if o['other']:
+            raise Inconclusive('catalogue entry %s/%s not understood: %r' % (o['lvl'], o['name'], o['other'][:2]))
+        lints += 1
+        if o['changed']:
+            blamed += 1
+            ck.violation('global-leak:%s' % o['name'],
+                         'linting the %s entry %r alone (header %s) changes a process-global type table, so every expression '
+                         'checked later in the process is typed differently: %s' % (o['lvl'], o['name'], o['hdr'], o['changed'][:3]),
+                         {'kind': 'global', 'lvl': o['lvl'], 'name': o['name'], 'hdr': o['hdr'], 'changed': o['changed'][:10],
+                          'src_composed': o['src']})
+    ck.cov['catalogue_entries_checked_for_global_effects'] = len(iin)
+    if batch_changed and not blamed:
+        raise Inconclusive('a process-global type table changed during the compositions but no single catalogue entry does it')
     # binding self-test: a reduced workflow that drops something the subject DOES depend on must be told apart
     st = run_compose(sd, [{'lvl': 'step', 'hdr': 'push', 'subj': 'refs', 'preds': ['id-a'], 'states': ['steps'], 'pos': 1,
                            'place': '', 'tools': False, 'nostub': True}], 1)[0]
@@ -140,7 +169,14 @@ def run(ck, tier):
         raise Inconclusive('specification Scope.tla violates %s under Scope_c09.cfg (model level)' % r.violated)
     shapes = [v for v in read_vectors(os.path.join(r.dir, 'vectors.dump')) if len(v['sh']['jobs']) >= 2]
     rng.shuffle(shapes)
-    shapes = shapes[:4000 if tier == 'quick' else 40000]
+    shapes = shapes[:3000 if tier == 'quick' else 40000]
+    r = vplib.run_tlc('Scope', 'Scope_jobsites.cfg', dump='vectors', timeout=3000)
+    ck.add_tlc('Scope shapes for reduction: 2 jobs normal / reusable-workflow call with matrix and needs, job-level sites', r)
+    if r.violated:
+        raise Inconclusive('specification Scope.tla violates %s under Scope_jobsites.cfg (model level)' % r.violated)
+    more = [v for v in read_vectors(os.path.join(r.dir, 'vectors.dump')) if len(v['sh']['jobs']) >= 2]
+    rng.shuffle(more)
+    shapes += more[:3000 if tier == 'quick' else 40000]
     routs = run_reduce(sd, shapes)
     rsubjects = 0
     for o in routs:
@@ -190,12 +226,19 @@ def run(ck, tier):
         'absolute positions quoted inside messages ("line:N,col:M") are line offsets and are masked',
         'shellcheck / pyflakes are stand-ins that report the shell and a hash of the script they received',
         'catalogue: %d job, %d step and %d expression constructs named in Compose.tla, texts in harness compose.go'
-        % (35, 16, 19)]
+        % (47, 16, 19)]
 
 
 def replay(path):
     rp = json.load(open(path))['replay']
     sd = vplib.subdir('c09r')
+    if rp['kind'] == 'global':
+        vplib.write_jsonl(os.path.join(sd, 'iin.jsonl'), [{'lvl': rp['lvl'], 'name': rp['name'], 'hdr': rp['hdr']}])
+        vplib.run_harness(['compose-items', os.path.join(sd, 'iin.jsonl'), os.path.join(sd, 'iout.jsonl')])
+        o = vplib.read_jsonl(os.path.join(sd, 'iout.jsonl'))[0]
+        print(o['src'])
+        print('changed entries of the global type tables:', o['changed'])
+        return 1 if o['changed'] else 0
     if rp['kind'] == 'compose':
         v = {k: rp[k] for k in ('lvl', 'hdr', 'subj', 'preds', 'states', 'pos', 'place', 'tools')}
         o = run_compose(sd, [v], 4)[0]
